@@ -7,16 +7,19 @@ Oracle (exact rationals, on the implementation's outputs), three parts:
                     (identical to enumerating the 8 corners).
  (M) meaningfulness returned error <= 2 * (gamma3 * sum_j |m_ij x_j| + gamma3 * |m_i3| + sum_j |m_ij| e_j)  (+ 2^-1000)
  (R) ray origin     the nudged origin is advanced by at most ||o_error||_2 and no corner of the error box around the
-                    un-nudged origin lies ahead of it (both up to the rounding of the nudge itself, see R_TOL).
+                    un-nudged origin lies ahead of it (both up to the rounding of the nudge itself, see ray_part).
 
-Signatures are  C16:<part>:<function>:<class> ; the class is a predicate on the case, computed here, so that
-known_findings.json can list the two defect classes of the crate precisely:
-   C16:S:<pt fn>:gamma3-vs-4-roundings   the row is evaluated ((m0 x + m1 y) + m2 z) + m3: four roundings on the first two
-                                         products against gamma(3); only when the excess is below the bound PROVED for the
-                                         code as it is (Coq: C16_S_point_partial, factor 4/3 (1+3u))
-   C16:M:<propagate fn>:translation      |m_i3| is added to the propagated input error; only when the row has a translation
-                                         and removing |m_i3| (1+gamma3) (1+8u) from the returned error restores (M)
-Anything else (class `beyond-proved-bound`, `other`, every R failure, every S failure of a vector function) is a violation.
+Signatures are  C16:<part>:<function>:<class> ; the class is a predicate on the case, computed here.
+Only ONE class is a recorded (known) finding of the current crate:
+   C16:S:<fn>:underflow                  some product m_ij*x_j is non-zero and below 2^-968 (F9c; Coq: C16_S_underflow_refuted)
+Two classes describe defects that were REPAIRED in /repo (known_findings.json: status fixed, they suppress nothing; a
+reappearance is a VIOLATION):
+   C16:S:<pt fn>:gamma3-vs-4-roundings   point row with a translation, excess below 4/3 (1+3u): what gamma(3) against four
+                                         roundings produced before fix: 34af114 (Coq: C16_S_point_pinned_refuted; now C16_S_point)
+   C16:M:<propagate fn>:translation      |m_i3| (1+gamma3) explains the excess: the translation column in the propagated input
+                                         error before fix: 5455df2 (Coq: C16_M_pinned_refuted; now C16_M_propagate)
+Every other class (`within-proved-factor`: an input-box case above the returned error but inside the (1+4u) that is proved,
+`beyond-proved-bound`, `other`, every R failure) is a violation as well.
 """
 import math
 from fractions import Fraction as Fr
@@ -31,13 +34,13 @@ RULE = ('chains of 0..6 elementary transforms (as C06) plus chains with three no
         'greedy low-bit search maximising the exact rounding error over the reported bound, using fused multiply-add / TwoSum '
         'error-free transformations); non-trivial = finite affine case with a non-zero input; distinct = distinct (op, matrix, operand bits)')
 ASSUMPTIONS = [
-    'Coq 8.16.1 kernel + vm_compute; Flocq 4.1.0; float-tier theorems hold for every binary format with prec >= 4 (binary32/64 are instances), under the stated no-underflow / finiteness guards',
+    'Coq 8.16.1 kernel + vm_compute; Flocq 4.1.0; float-tier theorems hold for every binary format with prec >= 8 (binary32/64 are instances), under the stated no-underflow / finiteness guards',
     'model = code: transform.rs error functions checked bit-for-bit on primitive floats (coq/Run/C06.v, ops 6,7,11..20)',
     '(R) is proved on the real-number instance (exact tier); its float reading is sampled by the oracle with a rounding tolerance',
     'rustc/LLVM evaluate + - * / in IEEE-754 binary64 round-to-nearest-even without contraction on x86-64',
 ]
-THEOREMS = ['C16_S_vec', 'C16_S_vec_box_partial', 'C16_S_point_partial', 'C16_S_point_box_partial', 'C16_S_point_refuted',
-            'C16_S_underflow_refuted', 'C16_M_with_error', 'C16_M_propagate_upper', 'C16_M_refuted', 'C16_M_fixed', 'C16_S_fixed_partial',
+THEOREMS = ['C16_S_vec', 'C16_S_point', 'C16_S_vec_box_partial', 'C16_S_point_box_partial', 'C16_M_with_error', 'C16_M_propagate',
+            'C16_S_point_pinned_refuted', 'C16_M_pinned_refuted', 'C16_S_underflow_refuted',
             'C16_R_nudge_forward', 'C16_R_no_box_point_ahead', 'C16_R_advance_bounded', 'C16_R_ray', 'C16_R_ray_propagate']
 
 def streams(tier):
@@ -86,8 +89,8 @@ def rows_of(tr, inv):
 
 def sound_part(fn, m, x, e, ret, err, is_pt, u, tiny):
     """(S) for one returned (value, error) pair; None or (signature, message)"""
-    K_PT = Fr(4, 3) * (1 + 3 * u)          # C16_S_point_partial / C16_S_point_box_partial
-    K_VEC_BOX = 1 + 4 * u                  # C16_S_vec_box_partial
+    K_BOX = 1 + 4 * u                      # C16_S_vec_box_partial / C16_S_point_box_partial (factor 1 is proved without a box)
+    K_OLD_PT = Fr(4, 3) * (1 + 3 * u)      # what gamma(3) against four roundings could reach (before fix: 34af114)
     boxed = any(v != 0 for v in e)
     for r in range(3):
         img = sum(m[r][k] * x[k] for k in range(3)) + (m[r][3] if is_pt else 0)
@@ -97,8 +100,8 @@ def sound_part(fn, m, x, e, ret, err, is_pt, u, tiny):
         if dev <= bound: continue
         prods = [m[r][k] * x[k] for k in range(3)] + [m[r][k] * e[k] for k in range(3)]
         if any(p != 0 and abs(p) < tiny for p in prods): cls = 'underflow'
-        elif is_pt and m[r][3] != 0 and dev <= K_PT * bound: cls = 'gamma3-vs-4-roundings'
-        elif (not is_pt) and boxed and dev <= K_VEC_BOX * bound: cls = 'within-proved-factor'
+        elif boxed and dev <= K_BOX * bound: cls = 'within-proved-factor'
+        elif is_pt and m[r][3] != 0 and dev <= K_OLD_PT * bound: cls = 'gamma3-vs-4-roundings'
         else: cls = 'beyond-proved-bound'
         return ('C16:S:%s:%s' % (fn, cls),
                 '%s: component %d: exact image%s is %.6g away from the returned value but the returned error is %.6g (ratio %.9f)'
@@ -152,7 +155,7 @@ def ray_part(fn, ret, onew, d, oerr, u):
         return ('C16:R:%s:box-point-ahead' % fn, '%s: a corner of the origin error box is ahead of the nudged origin by %.6g (tolerance %.6g)' % (fn, float(worst - dotd), float(tol)))
     return None
 
-KNOWN_CLASSES = ('translation', 'gamma3-vs-4-roundings', 'underflow')
+KNOWN_CLASSES = ('underflow',)
 
 def all_failures(c, st):
     """every failed part of the property on this case, as (signature, message)"""
